@@ -367,3 +367,107 @@ Proof.
   exists [TAdd kp (Some K5); TAdd kp (Some K5); TClose 0; TAdd kp (Some K5); TUpdate kp K6].
   eexists. split; [vm_compute; right; left; reflexivity|]. repeat split.
 Qed.
+
+(* ================================================================ WriteLast under a concurrent reader *)
+(* no step of the writer ever waits ... *)
+Lemma ch_wstep_enabled c : ch_pc c <> WIdle -> (forall v, ch_pc c <> WBlockDrain v) -> (forall v, ch_pc c <> WBlockSend v) ->
+  exists c', ch_wstep false c = Some c'.
+Proof.
+  intros H1 H2 H3. unfold ch_wstep. destruct (ch_pc c) as [|v|v|v|v]; try congruence.
+  - destruct (ch_slot c); eauto.
+  - eauto.
+Qed.
+
+(* the code's writer only visits its own three program points *)
+Definition ch_code_pc (c : chan) : Prop := match ch_pc c with WBlockDrain _ | WBlockSend _ => False | _ => True end.
+
+Lemma ch_code_pc_step c a c' : ch_code_pc c -> ch_step false c a = Some c' -> ch_code_pc c'.
+Proof.
+  unfold ch_code_pc. destruct a as [v| |]; simpl.
+  - unfold ch_start. destruct (ch_pc c); intros H E; inversion E; subst; simpl; exact I.
+  - unfold ch_wstep. destruct (ch_pc c) as [|v|v|v|v]; intros H E; try discriminate; try contradiction.
+    + destruct (ch_slot c); inversion E; subst; simpl; exact I.
+    + inversion E; subst; simpl. exact I.
+  - unfold ch_rstep. intros H E. inversion E; subst. destruct (ch_slot c); simpl; exact H.
+Qed.
+
+(* ... and it is done after at most three of its own steps, whatever the reader does in between: every writer step
+   lowers the measure, no reader step raises it, and it starts at 3 or less *)
+Lemma ch_measure_writer c c' : ch_code_pc c -> ch_wstep false c = Some c' -> (ch_measure c' < ch_measure c)%nat.
+Proof.
+  unfold ch_code_pc, ch_wstep, ch_measure. destruct c as [slot pc seen lst]; simpl.
+  destruct pc as [|v|v|v|v]; intros H E; try discriminate; try contradiction.
+  - destruct slot; inversion E; subst; simpl; auto with arith.
+  - inversion E; subst; simpl. auto with arith.
+Qed.
+
+Lemma ch_measure_reader c : (ch_measure (ch_rstep c) <= ch_measure c)%nat.
+Proof. unfold ch_rstep, ch_measure. destruct c as [slot pc seen lst]; simpl. destruct slot, pc; simpl; lia. Qed.
+
+Lemma ch_measure_bound c : (ch_measure c <= 3)%nat.
+Proof. unfold ch_measure. destruct (ch_pc c), (ch_slot c); lia. Qed.
+
+Lemma ch_measure_idle c : ch_measure c = 0%nat <-> ch_pc c = WIdle.
+Proof. unfold ch_measure. destruct (ch_pc c), (ch_slot c); split; intro H; try reflexivity; try discriminate; lia. Qed.
+
+(* WriteLast never blocks: in every state the code can reach, the writer in progress has an enabled step; each of its
+   steps brings it strictly closer to returning, the reader cannot push it back, and three steps always suffice *)
+Theorem write_last_never_blocks acts c :
+  ch_run false init_chan acts = Some c ->
+  (ch_pc c <> WIdle -> exists c', ch_wstep false c = Some c' /\ (ch_measure c' < ch_measure c)%nat) /\
+  (ch_measure (ch_rstep c) <= ch_measure c)%nat /\ (ch_measure c <= 3)%nat.
+Proof.
+  intro R.
+  assert (P : ch_code_pc c).
+  { assert (G : forall c0, ch_code_pc c0 -> ch_run false c0 acts = Some c -> ch_code_pc c).
+    { clear R. induction acts as [|a tl IH]; simpl; intros c0 H0 E; [inversion E; subst; exact H0|].
+      destruct (ch_step false c0 a) as [c1|] eqn:S; [|discriminate]. eapply IH; [eapply ch_code_pc_step; eassumption|exact E]. }
+    apply (G init_chan); [exact I|exact R]. }
+  split; [|split; [apply ch_measure_reader|apply ch_measure_bound]].
+  intro Hn. destruct (ch_wstep_enabled c Hn) as [c' E].
+  - intros v Hv. unfold ch_code_pc in P. rewrite Hv in P. exact P.
+  - intros v Hv. unfold ch_code_pc in P. rewrite Hv in P. exact P.
+  - exists c'. split; [exact E|apply ch_measure_writer; assumption].
+Qed.
+
+(* when no WriteLast is in progress, the slot holds the value of the last WriteLast that returned, or the reader took
+   it already (and nothing newer exists) *)
+Definition ch_inv (c : chan) : Prop := ch_pc c = WIdle -> ch_obs c = ch_last c.
+
+Lemma ch_obs_rstep c : ch_obs (ch_rstep c) = ch_obs c.
+Proof. unfold ch_obs, ch_rstep. destruct c as [slot pc seen lst]; simpl. destruct slot as [x|]; simpl; [apply last_opt_snoc|reflexivity]. Qed.
+
+Lemma ch_inv_step b c a c' : ch_inv c -> ch_step b c a = Some c' -> ch_inv c'.
+Proof.
+  unfold ch_inv. destruct a as [v| |]; simpl.
+  - unfold ch_start. destruct (ch_pc c); intros H E; inversion E; subst; simpl; discriminate.
+  - unfold ch_wstep. destruct (ch_pc c) as [|v|v|v|v]; intros H E; try discriminate.
+    + destruct (ch_slot c); inversion E; subst; simpl; [destruct b; discriminate|reflexivity].
+    + inversion E; subst; simpl. discriminate.
+    + destruct (ch_slot c); inversion E; subst; simpl. discriminate.
+    + destruct (ch_slot c); inversion E; subst; simpl. reflexivity.
+  - intros H E. inversion E; subst. rewrite ch_obs_rstep. unfold ch_rstep. destruct (ch_slot c); simpl; exact H.
+Qed.
+
+Theorem write_last_leaves_latest acts c :
+  ch_run false init_chan acts = Some c -> ch_pc c = WIdle -> ch_obs c = ch_last c.
+Proof.
+  assert (G : forall c0, ch_inv c0 -> ch_run false c0 acts = Some c -> ch_inv c).
+  { induction acts as [|a tl IH]; simpl; intros c0 H0 E; [inversion E; subst; exact H0|].
+    destruct (ch_step false c0 a) as [c1|] eqn:S; [|discriminate]. eapply IH; [eapply ch_inv_step; eassumption|exact E]. }
+  intro R. apply (G init_chan); [intros _; reflexivity|exact R].
+Qed.
+
+(* the single-select variant: the reader takes the value between the failed send and the blocking receive; the writer
+   then waits on an empty slot, holding the mutex: nobody can ever fill it (the reader does not write, other writers
+   wait for the mutex), and no reader step changes that *)
+Theorem write_last_blocking_variant_refuted :
+  exists acts c, ch_run true init_chan acts = Some c /\ ch_pc c <> WIdle /\ ch_wstep true c = None /\
+                 (forall n, ch_wstep true (Nat.iter n ch_rstep c) = None).
+Proof.
+  exists [CStart K5; CWriter; CStart K6; CWriter; CReader]. eexists. split; [vm_compute; reflexivity|].
+  split; [discriminate|]. split; [reflexivity|].
+  intro n. assert (E : forall m, Nat.iter m ch_rstep (mkChan None (WBlockDrain K6) [K5] (Some K5)) = mkChan None (WBlockDrain K6) [K5] (Some K5)).
+  { induction m as [|m IH]; simpl; [reflexivity|rewrite IH; reflexivity]. }
+  rewrite E. reflexivity.
+Qed.
